@@ -237,7 +237,8 @@ def Mol.delAtom (m : Mol) (p : Nat) : Mol :=
 def join (m₁ m₂ : Mol) (p q : Nat) : Option Mol :=
   match m₁.bonds.filter (·.has p), m₂.bonds.filter (·.has q) with
   | [b₁], [b₂] =>
-    if p < m₁.atoms.length ∧ q < m₂.atoms.length then
+    -- (a bond from the attachment atom to itself: `atoms.index(a1r)` fails in the code)
+    if p < m₁.atoms.length ∧ q < m₂.atoms.length ∧ b₁.other p ≠ p ∧ b₂.other q ≠ q then
       let d₁ := m₁.delAtom p
       let d₂ := m₂.delAtom q
       let n := d₁.atoms.length
